@@ -11,7 +11,7 @@ import (
 // C10: positional arguments bind in declaration order.
 
 var c10Decl = &GenCfg{Depth: 2, Fanout: 2, MaxOpts: 3, MaxGroups: 1, NestGroups: 1, Kinds: []Kind{KBool, KString, KInt, KStringSlice, KBoolSlice, KFloat64, KUpper},
-	Pos: true, PosPct: 90, PosSplit: true, Req: 0, OptArg: true, Aliases: true, SubOpt: 30, NonASCII: true,
+	Pos: true, PosPct: 90, PosSplit: true, Req: 0, OptArg: true, Aliases: true, SubOpt: 75, NonASCII: true,
 	ParserOpts: []flags.Options{flags.PassDoubleDash, flags.PassDoubleDash, flags.IgnoreUnknown}}
 
 var c10Argv = &ArgvCfg{MaxItems: 2, WOpt: 40, WCluster: 6, WCmd: 3, WPlain: 35, WTerm: 10, WUnknown: 2, WJunk: 3, WRepeat: 6, BadVal: 3, Quote: 5, TermPos: 25, TypedPos: 97}
